@@ -1,8 +1,9 @@
 (* Extraction of the integer part of the C17 model (ExtrOcamlBasic only).  ScaleF (primitive floats)
    is not extracted: see props/C17.py (coqc evaluates it on generated case lists). *)
-From LV Require Import Scale.ScaleDefs Scale.ScaleQ Gen.Consts_C17.
+From LV Require Import Scale.ScaleDefs Scale.ScaleQ Scale.ScalePtr Scale.ScaleCopy Gen.Consts_C17.
 Require Import ExtrOcamlBasic.
 Extraction Language OCaml.
 Extraction "../build/ocaml/C17/model.ml"
   update_rect scaling_setup client_new client_gone mark_modified resize_msg scaled_size split_rect_count
-  blank_fb find_scaled scaleQ correctionQ zlib_max_rect_size ultra_max_rect_size.
+  blank_fb find_scaled scaleQ correctionQ zlib_max_rect_size ultra_max_rect_size
+  ptr_new ptr_gone ptr_msg ptr_flush copy_pixels.
